@@ -12,18 +12,18 @@ open Pdt Pdt.Spec Pdt.Sql
     operators, case and cast over plain aggregates, aggregates of element-wise expressions, window functions, the keys
     themselves - anything whose column references are in scope.  (For a column reference that is neither a key nor below
     an aggregate both models take the group's first row; the real type checker rejects such a summarize.) -/
-theorem sql_refines_spec_grouped_gen {c : Ast} {sc : List Uid} (h : Frag c sc) (db : DB) (j i : NodeId)
+theorem sql_refines_spec_grouped_gen {c : Ast} {sc : List Uid} (h : Base c sc) (db : DB) (j i : NodeId)
     (K : List (Uid × ColMeta)) (hK : K ≠ []) (hKsc : ∀ cu ∈ K, cu.1 ∈ sc) (hKnc : ∀ cu ∈ K, cu.2.dtype.isConst = false)
     (hKnd : (K.map (·.1)).Nodup) (hKvis : ∀ cu ∈ K, ∃ e ∈ (Spec.run db c).visible, e.2 = cu.1)
     (L : List (String × Uid × Expr)) (metas : List (Dtype × Ftype))
     (hv : ∀ t ∈ L, ∀ u ∈ t.2.2.uids, u ∈ sc) (hfresh : ∀ t ∈ L, t.2.1 ∉ sc) (hnd : (L.map (·.2.1)).Nodup) (needed : Needed) :
     ∃ r n', compile (.summarize i (.groupBy j c K false) (L.map (·.1)) (L.map (·.2.2)) (L.map (·.2.1)) metas) needed = .ok (r, n') ∧
       Sql.run db r = (Spec.run db (.summarize i (.groupBy j c K false) (L.map (·.1)) (L.map (·.2.2)) (L.map (·.2.1)) metas)).frame := by
-  obtain ⟨r, n', hc, inv⟩ := frag_refines h db
+  obtain ⟨r, n', hc, inv⟩ := h.ref db
     ((uidsOfVerb (.groupBy j c K false)).foldl Needed.incr
       ((uidsOfVerb (.summarize i (.groupBy j c K false) (L.map (·.1)) (L.map (·.2.2)) (L.map (·.2.1)) metas)).foldl Needed.incr needed))
-  have hpb := frag_partitionBy h _ r n' hc
-  have hgr := frag_group h db
+  have hpb := h.pb _ r n' hc
+  have hgr := h.gr db
   have hz : ((L.map (·.1)).zip ((L.map (·.2.1)).zip (L.map (·.2.2)))).map (fun nuv => (nuv.2.1, nuv.1, Sql.inline r.defs nuv.2.2)) = newDefs r.defs L := by
     rw [zip3_map, List.map_map]; rfl
   have hndkeys : (newDefs r.defs L).map (·.1) = L.map (·.2.1) := by unfold newDefs; rw [List.map_map]; rfl
@@ -407,16 +407,16 @@ end
 
 /-- **refinement for an ungrouped summarize over the row-level fragment**: the compiled statement is accepted and
     evaluates to the (one-row) frame of the reference semantics, for every database and `needed_cols` state -/
-theorem sql_refines_spec_summarize_gen {c : Ast} {sc : List Uid} (h : Frag c sc) (db : DB) (i : NodeId)
+theorem sql_refines_spec_summarize_gen {c : Ast} {sc : List Uid} (h : Base c sc) (db : DB) (i : NodeId)
     (L : List (String × Uid × Expr)) (metas : List (Dtype × Ftype)) (hagg0 : ∃ t ∈ L, isAggQuery.aggNodes t.2.2 = true)
     (hv : ∀ t ∈ L, ∀ u ∈ t.2.2.uids, u ∈ sc) (hbf : ∀ t ∈ L, bareFree t.2.2 = true)
     (hfresh : ∀ t ∈ L, t.2.1 ∉ sc) (hnd : (L.map (·.2.1)).Nodup) (needed : Needed) :
     ∃ r n', compile (.summarize i c (L.map (·.1)) (L.map (·.2.2)) (L.map (·.2.1)) metas) needed = .ok (r, n') ∧
       Sql.run db r = (Spec.run db (.summarize i c (L.map (·.1)) (L.map (·.2.2)) (L.map (·.2.1)) metas)).frame := by
-  obtain ⟨r, n', hc, inv⟩ := frag_refines h db
+  obtain ⟨r, n', hc, inv⟩ := h.ref db
     ((uidsOfVerb (.summarize i c (L.map (·.1)) (L.map (·.2.2)) (L.map (·.2.1)) metas)).foldl Needed.incr needed)
-  have hpb := frag_partitionBy h _ r n' hc
-  have hgr := frag_group h db
+  have hpb := h.pb _ r n' hc
+  have hgr := h.gr db
   have hz : ((L.map (·.1)).zip ((L.map (·.2.1)).zip (L.map (·.2.2)))).map (fun nuv => (nuv.2.1, nuv.1, Sql.inline r.defs nuv.2.2)) = newDefs r.defs L := by
     rw [zip3_map, List.map_map]; rfl
   have hndkeys : (newDefs r.defs L).map (·.1) = L.map (·.2.1) := by unfold newDefs; rw [List.map_map]; rfl
